@@ -15,11 +15,11 @@ from vlib.core import Shard, Found
 
 PROPERTY = 'C09'
 LEVEL = 'exploration'
-RULE = ('project of 4-5 modules (a: from b import * / import c / import e; b: from d import *; c: from d import D, class C(D); '
-        'd: class D + names; e: created later) whose contents are functions of toggles; operations: rewrite d/b/c with a toggled '
-        'variant and a new mtime (harness counter via os.utime), touch d, create e, and seven requests through a.py (assist on an '
-        'instance attribute, on a star-imported class, on names, on module e; location on an inherited attribute and on a '
-        're-exported name; lint). Exhaustive: every history of length <= 3 (quick) / <= 4 (thorough) over the 13-symbol alphabet; '
+RULE = ('project a -> b -> d (star imports), a -> c -> d (inheritance), a -> x <-> y (import cycle), modules e / f and package '
+        'pkg created later (b star-imports the initially missing f); module contents are functions of toggles; operations: '
+        'rewrite with a new mtime (harness counter via os.utime), touch (leaf and importers), create module / package, and twelve '
+        'requests through a.py (assist / location / lint). Exhaustive: quick = every history of length <= 3 over a reduced '
+        'alphabet + every  request;edit;edit;request  history; thorough = length <= 4 over the full 24-symbol alphabet; '
         'random: Hypothesis RuleBasedStateMachine histories up to 12 / 30 steps. Non-trivial history: an edit after the edited '
         'module (or an importer of it) was first loaded, followed by a request that depends on it; distinct by operation sequence.')
 ASSUMPTIONS = ['modification times come from a harness counter through os.utime (never the clock); every rewrite changes the mtime',
@@ -32,11 +32,18 @@ ASSUMPTIONS = ['modification times come from a harness counter through os.utime 
 
 def sources(state):
     d = 'class D(object):\n    x = 1\n' + ('    extra = 2\n' if state['d_extra'] else '') + 'dname = 1\n' + ('dnew = 2\n' if state['d_new'] else '')
-    b = 'from d import *\nbname = 1\n' + ('bextra = D\n' if state['b_extra'] else '')
+    b = 'from d import *\nfrom f import *\nbname = 1\n' + ('bextra = D\n' if state['b_extra'] else '')
     c = 'from d import D\n\n\nclass C(D):\n    y = 1\n' + ('    z = 2\n' if state['c_extra'] else '')
-    out = {'d': d, 'b': b, 'c': c}
+    x = 'import y\nxv = 1\n' + ('xextra = 2\n' if state['x_extra'] else '')
+    y = 'import x\nyv = 2\n' + ('yextra = 3\n' if state['y_extra'] else '')
+    out = {'d': d, 'b': b, 'c': c, 'x': x, 'y': y}
     if state['e']:
         out['e'] = 'evalue = 1\n'
+    if state['f']:
+        out['f'] = 'fname = 1\n'
+    if state['pkg']:
+        out['pkg/__init__'] = 'pkgvalue = 0\n'
+        out['pkg/sub'] = 'pvalue = 1\n'
     return out
 
 
@@ -48,7 +55,15 @@ A_SRC = ('from b import *\n'
          'D.x\n'
          'dn\n'
          'e.evalue\n'
-         'print(dname, bname)\n')
+         'print(dname, bname)\n'
+         'import pkg.sub\n'
+         'pkg.sub.pvalue\n'
+         'fn\n'
+         'import x\n'
+         'x.y.yv\n'
+         'x.xv\n'
+         'from pkg import sub as psub\n'
+         'psub.pvalue\n')
 
 REQUESTS = {
     'assist-instance-attr': ('assist', (5, 4)),
@@ -58,15 +73,23 @@ REQUESTS = {
     'location-inherited-attr': ('location', (5, 5)),
     'location-reexported-name': ('location', (9, 11)),
     'lint': ('lint', None),
+    'assist-created-package': ('assist', (11, 8)),
+    'assist-late-star-names': ('assist', (12, 2)),
+    'assist-through-cycle': ('assist', (14, 4)),
+    'assist-cycle-member': ('assist', (15, 2)),
+    'assist-package-from-import': ('assist', (17, 7)),
 }
-EDITS = ['w:d_extra', 'w:d_new', 'w:b_extra', 'w:c_extra', 'touch:d', 'create:e']
+EDITS = ['w:d_extra', 'w:d_new', 'w:b_extra', 'w:c_extra', 'w:x_extra', 'w:y_extra', 'touch:d', 'touch:b', 'touch:c', 'create:e', 'create:f', 'create:pkg']
 ALPHABET = EDITS + sorted(REQUESTS)
+QUICK_EDITS = ['w:d_extra', 'w:d_new', 'w:b_extra', 'w:y_extra', 'touch:d', 'touch:b', 'create:e', 'create:f', 'create:pkg']
+QUICK_REQUESTS = ['assist-instance-attr', 'assist-star-class-attr', 'assist-names', 'assist-created-module', 'location-inherited-attr',
+                  'assist-created-package', 'assist-late-star-names', 'assist-through-cycle', 'assist-package-from-import']
 
 
 class World(object):
     def __init__(self):
         self.root = tempfile.mkdtemp(prefix='c09_')
-        self.state = {'d_extra': False, 'd_new': False, 'b_extra': False, 'c_extra': False, 'e': False}
+        self.state = {'d_extra': False, 'd_new': False, 'b_extra': False, 'c_extra': False, 'x_extra': False, 'y_extra': False, 'e': False, 'f': False, 'pkg': False}
         self.clock = 1000000000
         self.written = {}
         self.loaded_once = False
@@ -79,6 +102,7 @@ class World(object):
 
     def write(self, name, src):
         path = os.path.join(self.root, name + '.py')
+        os.makedirs(os.path.dirname(path), exist_ok=True)
         with open(path, 'w') as f:
             f.write(src)
         self.clock += 10
@@ -95,17 +119,20 @@ class World(object):
             if self.loaded_once:
                 self.edit_after_load = True
             return None
-        if op == 'touch:d':
-            path = os.path.join(self.root, 'd.py')
+        if op.startswith('touch:'):
+            path = os.path.join(self.root, op[6:] + '.py')
             self.clock += 10
             os.utime(path, (self.clock, self.clock))
             if self.loaded_once:
                 self.edit_after_load = True
             return None
-        if op == 'create:e':
-            if not self.state['e']:
-                self.state['e'] = True
-                self.write('e', sources(self.state)['e'])
+        if op.startswith('create:'):
+            key = op[7:]
+            if not self.state[key]:
+                self.state[key] = True
+                for name, src in sources(self.state).items():
+                    if name.split('/')[0] == key:
+                        self.write(name, src)
                 if self.loaded_once:
                     self.edit_after_load = True
             return None
@@ -236,15 +263,30 @@ def w_machine(job):
 
 
 def run(run):
-    maxlen = run.pick(3, 4)
     hs = []
-    for L in range(1, maxlen + 1):
-        for ops in itertools.product(ALPHABET, repeat=L):
-            if ops[-1] in REQUESTS and any(o in EDITS for o in ops):      # only histories that end in a request after some edit can differ
-                hs.append(ops)
+    if run.quick:
+        # every history of length <= 3 over a reduced alphabet that contains an edit and ends in a request,
+        # plus the family  request ; edit ; edit ; request  (an importer touched AND its import rewritten between two requests)
+        alpha = QUICK_EDITS + QUICK_REQUESTS
+        for L in (2, 3):
+            for ops in itertools.product(alpha, repeat=L):
+                if ops[-1] in REQUESTS and any(o in EDITS for o in ops):
+                    hs.append(ops)
+        for r1 in QUICK_REQUESTS:
+            for e1 in QUICK_EDITS:
+                for e2 in QUICK_EDITS:
+                    for r2 in QUICK_REQUESTS:
+                        hs.append((r1, e1, e2, r2))
+        scope = 'length <= 3 over %d symbols + all  request;edit;edit;request  histories' % len(alpha)
+    else:
+        for L in (2, 3, 4):
+            for ops in itertools.product(ALPHABET, repeat=L):
+                if ops[-1] in REQUESTS and any(o in EDITS for o in ops):
+                    hs.append(ops)
+        scope = 'length <= 4 over the full %d-symbol alphabet' % len(ALPHABET)
     run.pmap(w_exhaustive, corpus_shards(hs, 64))
     run.extra['exhaustive'] = True
-    run.extra['exhaustive_scope'] = 'all histories of length <= %d over the %d-symbol alphabet that contain an edit and end in a request (%d histories); longer histories sampled by the state machine' % (maxlen, len(ALPHABET), len(hs))
+    run.extra['exhaustive_scope'] = 'all histories (%s) that contain an edit and end in a request: %d histories; longer histories sampled by the state machine' % (scope, len(hs))
     run.pmap(w_machine, [(i, core.derive_seed(run.seed, 'c09m', i), run.pick(12, 300), run.pick(12, 30)) for i in range(16)])
 
 
